@@ -329,8 +329,12 @@ def wrap32 (n : Int) : Int :=
   let m := n % 4294967296
   if m ≥ 2147483648 then m - 4294967296 else m
 
+/-- `maxAge := cfg.STSHeader.MaxAge; if maxAge > math.MaxInt32 { maxAge = math.MaxInt32 }` (repair `e4a57ff`:
+before it `int32(MaxAge)` wrapped, 3000000000 was sent as `max-age=-1294967296`). -/
+def clampMaxAge (n : Int) : Int := if n > 2147483647 then 2147483647 else n
+
 def stsValue (cfg : Cfg) : Str :=
-  "max-age=".toList ++ (toString (wrap32 cfg.stsMaxAge)).toList ++
+  "max-age=".toList ++ (toString (wrap32 (clampMaxAge cfg.stsMaxAge))).toList ++
   (if cfg.stsSubdomains then "; includeSubdomains".toList else []) ++
   (if cfg.stsPreload then "; preload".toList else [])
 
